@@ -39,6 +39,9 @@ func (e *E3) g8(r *Result, prefix string, f *Flow) {
 					// x - c: need x >= c: facts v:lbc:<x>:<c'> with c' >= c
 					okv = st.Has(Atom(fmt.Sprintf("v:lbc:%s:%d", canon(bo.X), c)))
 					detail = fmt.Sprintf("needs %s >= %d established", canon(bo.X), c)
+					if lb, has := maxLowerBound(bo.X); !okv && has && lb >= c {
+						okv, detail = true, fmt.Sprintf("the minuend is max(..., %d), which cannot be less than %d", lb, c)
+					}
 				} else {
 					okv = st.Has(Atom("v:le-val:"+canon(bo.Y)+":"+canon(bo.X))) || st.Has(Atom("v:lt-val:"+canon(bo.Y)+":"+canon(bo.X)))
 					detail = fmt.Sprintf("needs %s <= %s established", canon(bo.Y), canon(bo.X))
@@ -66,4 +69,24 @@ func budgetMinusChunkSize(m *Matcher, bo *ssa.BinOp) bool {
 	}
 	given := allArgs(src)[1]
 	return canon(given) == canon(bo.X) || given == bo.X
+}
+
+// maxLowerBound: v is a call of the builtin max with a constant argument; that
+// constant is a lower bound of the result.
+func maxLowerBound(v ssa.Value) (int64, bool) {
+	call, ok := intRootNoVar(v).(*ssa.Call)
+	if !ok {
+		return 0, false
+	}
+	bi, ok := call.Call.Value.(*ssa.Builtin)
+	if !ok || bi.Name() != "max" {
+		return 0, false
+	}
+	best, has := int64(0), false
+	for _, a := range call.Call.Args {
+		if c, isC := constInt(intRootNoVar(a)); isC && (!has || c > best) {
+			best, has = c, true
+		}
+	}
+	return best, has
 }
